@@ -152,6 +152,17 @@ def work(unit):
                 if not same(listed, want_list):
                     bad('iteration-keys', k1, k2, 'list(cache)=%r want %r'
                         % (listed, want_list))
+                # every other accessor that hands keys back
+                rlisted = call(lambda: list(reversed(cache)))
+                ends = (call(cache.peekitem, last=False),
+                        call(cache.peekitem, last=True))
+                want_ends = ((want_list[0], 'B' if equal else 'A'),
+                             (want_list[-1], 'B'))
+                if not same(rlisted, want_list[::-1]) or \
+                        not same(ends, want_ends):
+                    bad('returned-keys', k1, k2, 'reversed(cache)=%r, '
+                        'peekitem first/last=%r; want %r and %r'
+                        % (rlisted, ends, want_list[::-1], want_ends))
                 if disk != 'json':
                     want_sorted = sorted(
                         want_list, key=lambda k: sort_key(k, proto))
